@@ -7,10 +7,10 @@ HERE = os.path.dirname(os.path.dirname(os.path.abspath(__file__)))
 
 CHECKS = {
     'C01': ('exhaustive small-scope enumeration + Hypothesis single steps + rule-based histories vs reference model',
-            'Exhaustive for <= 4 (quick) / 6 (thorough) stories x 5 metadata layouts x all 11 story-level kinds x all '
+            'Exhaustive for <= 4 (quick) / 6 (thorough) stories x 7 layouts (metadata anywhere, anonymous stories, look-alike IDs and foreign-namespace decoys) x all 11 story-level kinds x all '
             'ordered source tuples x all targets; random beyond. Exploration: absence is shown only inside the enumerated scope.', '7/C01'),
     'C02': ('exhaustive small-scope enumeration + Hypothesis single steps + rule-based histories vs reference model',
-            'Exhaustive for <= 4/6 items x 4 paragraph layouts x all 9 item-level kinds x all ordered source tuples x all references.', '7/C02'),
+            'Exhaustive for <= 4/6 items x 7 layouts (paragraphs, storyID last, anonymous / look-alike / decoy items) x all 9 item-level kinds x all ordered source tuples x all references.', '7/C02'),
     'C03': ('frame-equality oracle over exhaustive scopes + Hypothesis rich documents + histories',
             'Every un-named element compared structurally before/after for every reference shape (existing/unknown/blank/missing).', '7/C03'),
     'C04': ('round-trip/structural equality of carried payloads (Hypothesis) with independent roStorySend conversion',
@@ -30,15 +30,15 @@ CHECKS = {
     'C10': ('metamorphic permutation invariance (all permutations for small lists) across three constructors',
             'Every supplied order must give the same reader order and merged text; IDs of mixed digit counts.', '7/C10'),
     'C11': ('exhaustive count/ID-pattern enumeration evaluated in fresh python / -O / -OO interpreters',
-            'All combinations of 0..3 roCreates x 0..3 roDeletes x 0..3 others x 5 ID patterns x allow_incomplete in three interpreter configurations.', '7/C11'),
+            'All combinations of 0..3 roCreates x 0..3 roDeletes x 0..3 others x 9 ID patterns x allow_incomplete, through strings / files / readers / a paged fake bucket, in three interpreter configurations.', '7/C11'),
     'C12': ('exception containment with (type, innermost frame) bucketing over enumerations, Hypothesis steps, histories, collections',
             'Any non-mosromgr exception leaving classification or `ro += msg` is a violation; buckets keep the search alive.', '7/C12'),
     'C13': ('Hypothesis rule-based machine over four running orders (live objects vs fresh copies, re-used objects)',
-            'Observational independence: str() of every merged message object and of twin running orders compared after every step.', '7/C13'),
+            'Independence: str() and accessor view of every merged message object, twin running orders compared structurally after every step, no Element object or attribute dictionary shared between any two trees, edited objects merged again, readers re-used.', '7/C13'),
     'C14': ('round-trip (write/read) invariant at every state of Hypothesis histories',
             'Serialise, re-read, compare text/tree/state; envelope invariants.', '7/C14'),
     'C15': ('exhaustive optional-data subsets + Hypothesis documents + histories; accessor totality and agreement with direct XML reads',
-            'All 8 timing shapes per story for <= 2 (quick) / 3 (thorough) stories; every documented accessor called.', '7/C15'),
+            'All 11 timing shapes per story (incl. present-but-empty tags) for <= 2 (quick) / 3 (thorough) stories; every documented accessor called.', '7/C15'),
     'C16': ('Hypothesis duration/time vectors + histories vs values recomputed from the XML',
             'Arithmetic identities recomputed independently (datetime.fromisoformat, float sums) with stated tolerances.', '7/C16'),
     'C17': ('Hypothesis paragraph/item interleavings + histories vs independent reading of the story children',
